@@ -163,6 +163,9 @@ def gen_parser(rng, levels, level=0, p_dcf=0.2):
 def gen_spec(rng, p_dcf=0.2):
     spec = gen_parser(rng, rng.choice([1, 1, 2, 2, 2, 3, 3]), 0, p_dcf)
     spec["default_env"] = rng.random() < 0.4
+    # how environment parsing is switched on: constructor argument, `parser.default_env = True` AFTER the tree is built,
+    # `env=True` on the parse call, or JSONARGPARSE_DEFAULT_ENV=true in the process environment
+    spec["env_how"] = rng.choice(["ctor", "setter", "setter", "call", "osenv"]) if spec["default_env"] else "ctor"
     return spec
 
 
@@ -279,8 +282,19 @@ class Built:
         self.by_id = {}
         self.by_path = {}
         self.nfiles = 0
-        self.root = self._mk(spec, (), True)
-        self._subs(self.root, spec, ())
+        self.how = spec.get("env_how", "ctor") if spec.get("default_env") else "ctor"
+        os.environ.pop("JSONARGPARSE_DEFAULT_ENV", None)
+        if self.how == "osenv":
+            os.environ["JSONARGPARSE_DEFAULT_ENV"] = "true"
+        try:
+            self.root = self._mk(spec, (), True)
+            self._subs(self.root, spec, ())
+            if self.how == "setter":
+                # the documented property, used once the whole tree exists
+                self.root.default_env = True
+        finally:
+            os.environ.pop("JSONARGPARSE_DEFAULT_ENV", None)
+        self.call_kw = {"env": True} if self.how == "call" else {}
 
     def file(self, tree):
         self.nfiles += 1
@@ -294,7 +308,7 @@ class Built:
 
         kw = {"exit_on_error": False}
         if root:
-            kw.update(prog="app", default_env=bool(spec.get("default_env")))
+            kw.update(prog="app", default_env=bool(spec.get("default_env")) and self.how == "ctor")
         if spec["dcf"] is not None:
             kw["default_config_files"] = [self.file(spec["dcf"])]
         p = ArgumentParser(**kw)
@@ -455,14 +469,15 @@ def real_run(spec, inp, record=True):
             try:
                 if record:
                     rec.__enter__()
+                kw = built.call_kw
                 if kind == "args":
-                    r = p.parse_args(flat_argv(inp["argv"], built))
+                    r = p.parse_args(flat_argv(inp["argv"], built), **kw)
                 elif kind == "string":
-                    r = p.parse_string(json.dumps(inp["tree"]))
+                    r = p.parse_string(json.dumps(inp["tree"]), **kw)
                 elif kind == "object":
-                    r = p.parse_object(copy.deepcopy(inp["tree"]))
+                    r = p.parse_object(copy.deepcopy(inp["tree"]), **kw)
                 elif kind == "path":
-                    r = p.parse_path(built.file(inp["tree"]))
+                    r = p.parse_path(built.file(inp["tree"]), **kw)
                 elif kind == "env":
                     r = p.parse_env()
                 else:
@@ -889,7 +904,7 @@ def judge(spec, inp, res):
         return devs, ref
     if ref[0] == "error":
         if "ok" in res:
-            devs.append(("no subcommand can be determined for required %r but the parse succeeds" % ref[1], chint or leak))
+            devs.append(("no subcommand can be determined for required %r but the parse succeeds" % ref[1], chint or early or leak))
         elif res.get("err") not in ("nosub", "reqkey"):
             devs.append(("undeterminable required subcommand: failure is not the subcommand error (%s)" % json.dumps(res)[:160], leak))
         return devs, ref
@@ -1131,6 +1146,10 @@ def shrink_case(spec, inp, still_bad, budget=400):
             s2 = copy.deepcopy(spec)
             s2["default_env"] = False
             yield s2, inp
+            if spec.get("env_how", "ctor") != "ctor":
+                s2 = copy.deepcopy(spec)
+                s2["env_how"] = "ctor"
+                yield s2, inp
         for k in list(inp.get("env") or {}):
             i2 = copy.deepcopy(inp)
             del i2["env"][k]
@@ -1258,7 +1277,8 @@ def model_view(kind, ans):
 def run(ctx: Ctx):
     repo_python_path()
     ctx.rule = ("generated parser trees (depth 1-3, 1-4 subcommands per level, required/optional, 0-3 int options per parser, --cfg and default "
-                "config files at any level, default_env) x inputs through parse_args (options, config strings/files, subcommand names at any depth), "
+                "config files at any level, environment parsing enabled by the constructor / by `parser.default_env = True` after the tree is built / "
+                "by env=True on the call / by JSONARGPARSE_DEFAULT_ENV) x inputs through parse_args (options, config strings/files, subcommand names at any depth), "
                 "parse_string, parse_object, parse_path, parse_env and environment variables (options, subcommand names, config); each case is "
                 "judged by the reference and every get_subcommands/handle_subcommands call it makes is replayed through the Lean model; non-trivial "
                 "= a case whose parse reaches a parser with subcommands and either selects one or fails for a required one; distinct by canonical JSON")
@@ -1297,7 +1317,7 @@ def run(ctx: Ctx):
         ctx.hist("kind", inp["kind"])
         ctx.hist("depth", spec_depth(spec))
         ctx.hist("outcome", "ok" if "ok" in real["res"] else real["res"].get("err"))
-        ctx.hist("default_env", bool(spec.get("default_env")))
+        ctx.hist("default_env", (spec.get("env_how", "ctor") if spec.get("default_env") else False))
         ctx.hist("default_config_files", has_dcf(spec))
 
     # ---------------- correspondence
